@@ -28,6 +28,9 @@ THEOREMS = [
     "Nix.C09.compound_all_powers",
     "Nix.C09.scaling_shape",
     "Nix.C09.scaling_shape_ratio",
+    "Nix.C09.split_captures",
+    "Nix.C09.scaling_total_exact",
+    "Nix.C09.scaling_positive",
     "Nix.C09.scalable_equivalence",
     "Nix.C09.scaling_identity",
     "Nix.C09.scaling_refused_iff_not_scalable",
@@ -50,7 +53,11 @@ THEOREMS = [
 ]
 ASSUMPTIONS = [
     "Python's `re` engine is replaced by a hand-written backtracking matcher for the regex shapes units.py "
-    "assembles (shapes and tables regenerated from the source each run; complete-table correspondence supports it)",
+    "assembles (shapes and tables regenerated from the source each run; complete-table correspondence supports it). "
+    "The matcher is proved to accept exactly the language of those regular expressions (atomic_exact, "
+    "compound_exact) and the prefix/unit/power reading of an atom is proved unique (atom_reading_unique), so what "
+    "is assumed of `re` is the standard semantics of alternation, `?`, `$` (incl. before a final newline), "
+    "match/search - not a particular backtracking order",
     "`\\d` is modelled as ASCII digits; inputs with non-ASCII digits are outside the model and the generators",
     "scaling factors are exact rationals in the model; the float result is compared within 1e-13 relative",
     "'same power' is read as the same power text ('m^1' vs 'm' is refused by the code; conservative, documented)",
